@@ -2,4 +2,4 @@ CONSTANTS
   MaxLen = 6
 INIT Init
 NEXT Next
-INVARIANTS RoundTrip DocImpliesLenient EmitText EmitTrees
+INVARIANTS RoundTrip DocImpliesLenient EmitText EmitIds EmitTrees
